@@ -464,8 +464,10 @@ Definition session (live : bytes -> bool) (file : bytes) (ops : list dop) : byte
 Definition apply_ops (file : bytes) (ops : list dop) : bytes :=
   session (fun _ => true) file ops.
 
-(* ninja -t recompact: Load then Recompact. None = the file stays (crash / failure / bad header
-   with no file: Recompact then writes a header-only file) *)
+(* ninja -t recompact: Load then Recompact.  On a crash / failure of Recompact the (truncated)
+   file stays.  Bad header: Load unlinks the file, Recompact writes <path>.recompact and then
+   FAILS in ReplaceContent (unlink of the missing destination: ENOENT): no deps log is left
+   ([] = no file). *)
 Definition recompact_file (live : bytes -> bool) (file : bytes) : bytes :=
   match load_deps file with
   | DOk s tr _ =>
@@ -473,7 +475,7 @@ Definition recompact_file (live : bytes -> bool) (file : bytes) : bytes :=
       | COk _ f => f
       | _ => match tr with Some k => firstn k file | None => file end
       end
-  | DBadHeader => deps_header
+  | DBadHeader => []
   | _ => file
   end.
 
